@@ -13,7 +13,8 @@ package main
 //   [2; alloc0; ti; est; n; byte*]             ByteSliceToByteArray[Uint8Value]
 // answer line: [alloc after; nlog; (kind; slab index)*; tree dump].
 //
-// Tags: b<k> array streams, bm<k> maps, bc<k> copies, by<k> byte conversions.
+// Tags: b<k> array streams, bm<k> maps, bc<k> copies, by<k> byte conversions, bl<k> life after bulk
+// construction (mode "life", batchlife.go).
 
 import (
 	"encoding/binary"
@@ -37,6 +38,9 @@ type batchRun struct {
 	tag    string
 	T      uint32
 	failed bool
+	// mode "life" (batchlife.go): histories run and operations issued (no trace there)
+	lifeHists int
+	lifeSteps int
 }
 
 func (r *batchRun) viol(what, detail string) {
@@ -1968,6 +1972,11 @@ func cmdBatch(a Args) {
 	maxLen := a.Steps * 10
 	part := func(p string) bool { return a.Mode == "" || a.Mode == p }
 
+	if a.Mode == "life" {
+		// life after bulk construction (batchlife.go); a mode of its own: nothing is written to the trace
+		rep.Rule = lifeRule
+		r.runLife(a, rng.Fork(5), maxLen)
+	}
 	if part("array") {
 		r.runArrayStreams(a, rng.Fork(1), maxLen)
 	}
@@ -2022,7 +2031,7 @@ func cmdBatch(a Args) {
 		}
 	}
 	tr.Close()
-	rep.Histories = tr.Hists
-	rep.Steps = tr.Steps
+	rep.Histories = tr.Hists + r.lifeHists
+	rep.Steps = tr.Steps + r.lifeSteps
 	rep.Write(a.Out + "/report.json")
 }
